@@ -1,6 +1,6 @@
 """C04 — client calls return their own response, never another request's bytes
 (specs/client/ClientRoundTrip.tla; exhaustive TLC + trace validation B2 + black-box id check).
-The PipelineClient part of C04 is decided by the PipelineClient check."""
+PipelineClient: black-box own-response oracle in this check; its queue model is specs/client/PipelineClient.tla (C38)."""
 import re
 from verif.core import Infra
 META = dict(
@@ -28,8 +28,11 @@ def run(ctx):
     ctx.extra["sloppy_model_violates"] = True
 
     ntr = ctx.pick(40, 400)
-    recs = ctx.go_test(".", ["c04_", "c18_fakeconn"], "^TestVerifC04RoundTrip$", timeout=2400,
-                       env={"VERIF_C04_TRACES": ntr})
+    # HostClient/Client round trips (trace + black box) and, in the same test binary, PipelineClient: black-box
+    # own-response oracle (tag in header, body and reason phrase; the request really reached the server) under
+    # server-side connection drops while requests are being written (gated body streams park the writer)
+    recs = ctx.go_test(".", ["c04_", "c18_fakeconn"], "^TestVerifC04(RoundTrip|Pipeline)$", timeout=2400,
+                       env={"VERIF_C04_TRACES": ntr, "VERIF_C04_PIPE_EXECS": ctx.pick(25, 300)})
     ctx.absorb(recs)
     tf = ctx.extra.pop("trace_file", None)
     if not tf:
@@ -37,5 +40,6 @@ def run(ctx):
     ctx.validate_traces("client", "ClientRoundTripTrace", tf, label="roundtrip", max_rounds=6)
     ctx.rule = "one case = one call (Do/DoTimeout/DoDeadline); non-trivial = the call got a streamed response, so the stream-close path decided about connection reuse"
     ctx.assumptions = ["model constants: 2 connections, 2 calls (3 in the thorough tier), body of 2 units (1 unit in the two larger thorough runs: 3 calls, and 2 transmissions per call), every strict prefix cut",
-                       "the server sends one (possibly truncated) response per request; PipelineClient is covered by its own check",
+                       "the server sends one (possibly truncated) response per request, in request order per connection",
+                       "PipelineClient calls are checked black-box (tag of header/body/reason phrase, and the request must have reached the server); the pipelined queue model itself is PipelineClient.tla (C38)",
                        "real-code schedules are sampled (seeded), not exhaustive"]
